@@ -694,6 +694,23 @@ func gen(c *harness.C) []harness.Case {
 	for i, ch := range chunk(triples(quick), 8) {
 		cases = append(cases, syncSetsCase(fmt.Sprintf("triples%d", i), ch))
 	}
+	// large committees (identifiers spread over the whole range, both sides of every byte boundary)
+	big := func(n int) []uint16 {
+		ids := []uint16{0, 1, 127, 128, 255, 256, 257, 511, 512, 4095, 32767, 32768, 40000, 65279, 65534, 65535}
+		for i := 0; len(ids) < n; i++ {
+			ids = append(ids, uint16(1000+37*i))
+		}
+		ids = ids[:n]
+		sort.Slice(ids, func(i, j int) bool { return ids[i] < ids[j] }) // the differential oracle renames by rank
+		return ids
+	}
+	sizes := []int{13, 16, 17, 24}
+	if c.Thorough() {
+		sizes = append(sizes, 18, 32, 40)
+	}
+	for _, n := range sizes {
+		cases = append(cases, syncSetsCase(fmt.Sprintf("large%d", n), [][]uint16{big(n)}))
+	}
 	for _, mode := range []string{"loud", "silent"} {
 		for _, be := range []string{"bls", "S"} {
 			for _, shift := range []uint16{0, 3} {
